@@ -374,6 +374,7 @@ func checkStopFlag(r2 *core.RuleRun, p *pipeline, sd *ssa.Function) {
 	}
 	loop := core.LoopOf(p.run, p.read)
 	polled := false
+	var pollBlocks []*ssa.BasicBlock
 	if loop != nil {
 		for b := range loop.Blocks {
 			ifi, ok := b.Instrs[len(b.Instrs)-1].(*ssa.If)
@@ -386,8 +387,30 @@ func checkStopFlag(r2 *core.RuleRun, p *pipeline, sd *ssa.Function) {
 			}
 			if _, f := fieldLoad(cond); f == flag {
 				polled = true
+				pollBlocks = append(pollBlocks, b)
 			}
 		}
+	}
+	// ... on every iteration: with the flag tests taken out, the loop header cannot be reached again (a test that sits
+	// only on the read-timeout path is never executed while datagrams keep arriving)
+	if polled && loop != nil {
+		isPoll := map[*ssa.BasicBlock]bool{}
+		for _, b := range pollBlocks {
+			isPoll[b] = true
+		}
+		w := core.Walk{Blocked: func(i ssa.Instruction) bool {
+			_, isIf := i.(*ssa.If)
+			return isIf && isPoll[i.Block()]
+		}}
+		every := true
+		hdr := loop.Header.Instrs[0]
+		for i := range w.ReachInstrs(hdr) {
+			if i == hdr {
+				every = false
+			}
+		}
+		// the header's own first instruction is reachable from itself only through a full cycle
+		r2.Check(every, name+":loop-polls-flag-every-iteration", p.read.Pos(), "every iteration of the receive loop tests the stop flag", "the receive loop can go round without testing the stop flag (the test sits on one branch only, e.g. the read-timeout path): while datagrams keep arriving the collector never stops and main never returns")
 	}
 	r2.Check(polled, name+":loop-polls-flag", p.read.Pos(), "receive loop exits on field "+flag.Name()+" which shutdown sets", "the receive loop does not test the flag ("+flag.Name()+") that shutdown sets: the collector keeps accepting datagrams after SIGTERM and main never returns")
 	// constant read deadline inside the loop, before the read
